@@ -3,7 +3,7 @@
    paths.  Observed messages are compared with [value_equiv] (field order inside a tree is not
    significant: proto.Merge appends fields, the Go printer emits them in number order). *)
 From SC Require Import Base.Prelude Msg.Msg Msg.Schema Msg.Path Masks.Get Masks.Update
-  Resource.Impl Resource.Spec Resource.Flat Resource.Tree Gen.Schema.
+  Resource.Impl Resource.Spec Resource.Flat Resource.Tree Resource.Tween Gen.Schema.
 
 Inductive top :=
 | TGet (id : string) (mask : option (list path))
@@ -22,7 +22,11 @@ Inductive tvobs := UVGet (r : option value) | UVSet (r : option value) (code : Z
 
 Inductive tcase :=
 | TCaseC (ty : string) (resw : mask) (idf : option idf) (steps : list (top * tobs))
-| TCaseV (ty : string) (resw : mask) (initial : option value) (steps : list (tvop * tvobs)).
+| TCaseV (ty : string) (resw : mask) (initial : option value) (steps : list (tvop * tvobs))
+(* a collection constructed with WithInitialRecord(id, v) ... (distinct ids, stored as given) *)
+| TCaseCR (ty : string) (resw : mask) (idf : option idf) (records : list (string * value)) (steps : list (top * tobs))
+(* resource.ValidateTweenOnUpdate(name, tween): the gRPC code it returned (0 = nil error) *)
+| TCaseTween (t : option tween) (code : Z).
 
 Definition rmask_of (ty : string) (m : option (list path)) : option trmask := option_map (mkTR ty) m.
 
@@ -104,7 +108,20 @@ Definition t_agrees (c : tcase) : bool :=
   | TCaseV ty resw initial steps =>
       let '(_, outs) := v_run t_v_impl_step (v_init fclock initial) (map (to_tvop ty resw) (map fst steps)) in
       tvtrace outs (map snd steps)
+  | TCaseCR ty resw i records steps =>
+      let '(_, outs) := run (t_impl_step i) (c_new fclock str_ltb records) (map (to_tcop ty resw) (map fst steps)) in
+      ttrace outs (map snd steps)
+  | TCaseTween t code => (match validate_tween_on_update t with Some c => c | None => 0 end) =? code
   end.
+
+(* List is sorted by id (direct clause on every observed listing) *)
+Fixpoint t_keys_sorted (l : list (string * value)) : bool :=
+  match l with
+  | [] => true
+  | (a, _) :: r => match r with [] => true | (b, _) :: _ => str_ltb a b && t_keys_sorted r end
+  end.
+Definition t_lists_sorted (steps : list (top * tobs)) : bool :=
+  forallb (fun p => match snd p with UList l => t_keys_sorted l | _ => true end) steps.
 
 Definition C01T_ok (c : tcase) : bool :=
   match c with
@@ -114,6 +131,10 @@ Definition C01T_ok (c : tcase) : bool :=
   | TCaseV ty resw initial steps =>
       let '(_, outs) := v_run t_v_spec_step (v_init fclock initial) (map (to_tvop ty resw) (map fst steps)) in
       tvtrace outs (map snd steps)
+  | TCaseCR ty resw i records steps =>
+      let '(_, outs) := run (t_spec_step i) (c_new fclock str_ltb records) (map (to_tcop ty resw) (map fst steps)) in
+      ttrace outs (map snd steps) && t_failed_noop None false steps && t_lists_sorted steps
+  | TCaseTween _ _ => true     (* not part of C01's statement: correspondence of Resource/Tween.v only *)
   end.
 
 Definition judge01t (c : tcase) : Z := verdict (t_agrees c) (C01T_ok c) None.
